@@ -171,7 +171,7 @@ fn arb_call() -> impl Strategy<Value = Call> {
 fn arb_script() -> impl Strategy<Value = Script> {
     (
         "(/[a-z]{1,6}){0,3}(\\?[a-z]=[0-9])?",
-        proptest::option::weighted(0.5, (prop_oneof![2 => "[a-z]{1,8}", 1 => "[a-z:é ]{1,8}"], prop_oneof![2 => "[a-zA-Z0-9]{0,10}", 1 => "[a-z:é@ ]{0,10}"])),
+        proptest::option::weighted(0.5, (prop_oneof![3 => "[a-z]{1,8}".boxed(), 1 => "[a-z:é ]{1,8}".boxed(), 1 => Just(String::new()).boxed()], prop_oneof![2 => "[a-zA-Z0-9]{0,10}", 1 => "[a-z:é@ ]{0,10}"])),
         proptest::collection::vec(arb_call(), 1..=4),
     )
         .prop_map(|(path, credentials, calls)| Script { path: if path.is_empty() || path.starts_with('?') { format!("/{path}") } else { path }, credentials, calls })
